@@ -142,3 +142,41 @@ Example fmt_examples :
   (* the zero-padded hour is not read back: *)
   datehour_parse (game_fmt true (mkraw 1936 (1 * 4096 + 2 * 128 + 5 * 4))) = Ok None.
 Proof. repeat split; vm_compute; reflexivity. Qed.
+
+(* ---- ISO-8601 rendering: reading the numerals back gives the same components, hour as 0..23 ---- *)
+Theorem iso_components r y m d h :
+  has_fields r y m d h -> in_i16 y = true -> 1 <= m <= 12 -> 1 <= d <= 31 -> 0 <= h <= 24 ->
+  exists r1 r2 T,
+    to_i64_t (iso_fmt r) = Ok (y, DASH :: r1) /\ to_i64_t r1 = Ok (m, DASH :: r2) /\ to_i64_t r2 = Ok (d, T) /\
+    ((h = 0 /\ T = []) \/ (1 <= h /\ exists T', T = 84%N :: T' /\ to_i64_t T' = Ok (h - 1, []))).
+Proof.
+  intros (H1 & H2 & H3 & H4 & H5) Hy Hm Hd Hh. apply in_i16_true in Hy.
+  pose proof (hh_check_ok m d h Hm Hd Hh) as Hc. unfold hh_check in Hc. apply eqb_prop in Hc.
+  unfold raw_has_hour in Hc. cbn [rdata] in Hc.
+  unfold iso_fmt, raw_has_hour. rewrite H1, H2, H3, H4, H5, Hc.
+  set (T := if negb (h =? 0) then [84%N] ++ fmt_int 2 (h - 1) else []).
+  exists (fmt_int 2 m ++ [DASH] ++ fmt_int 2 d ++ T), (fmt_int 2 d ++ T), T.
+  assert (HT : stops T = true) by (unfold T; destruct (negb (h =? 0)); reflexivity).
+  split; [apply (to_i64_t_fmt_int 4 y); [lia|reflexivity]|].
+  split; [apply (to_i64_t_fmt_int 2 m); [lia|reflexivity]|].
+  split; [apply (to_i64_t_fmt_int 2 d); [lia|exact HT]|].
+  unfold T. destruct (h =? 0) eqn:E; cbn [negb].
+  - left. apply Z.eqb_eq in E. auto.
+  - right. apply Z.eqb_neq in E. split; [lia|]. exists (fmt_int 2 (h - 1)). split; [reflexivity|].
+    rewrite <- (app_nil_r (fmt_int 2 (h - 1))). apply to_i64_t_fmt_int; [lia|reflexivity].
+Qed.
+
+(* ---- RawDate::parse reads back both renderings of any raw date with in-range fields ---- *)
+Theorem fmt_parse_raw y m d h wide :
+  in_i16 y = true -> 1 <= m <= 12 -> 1 <= d <= 31 -> 0 <= h <= 24 -> wide_ok wide h = true ->
+  exists r, raw_from_ymdh_opt y m d h = Some r /\ raw_parse (game_fmt wide r) = Ok (Some r).
+Proof.
+  intros Hy Hm Hd Hh Hw. destruct (raw_fields' y m d h Hm Hd Hh) as (r & Hr & Hf).
+  exists r. split; [exact Hr|]. unfold raw_parse.
+  rewrite (x_parse_game_fmt wide r y m d h Hf Hy Hm Hd Hh Hw). unfold olift. cbn [obind].
+  unfold raw_from_expanded. cbn [xy xm xd xh]. rewrite Hr.
+  rewrite (game_fmt_eq wide r y m d h Hf Hm Hd Hh).
+  assert (Ht : exists t, tail_fmt wide m d h = DOT :: t) by (unfold tail_fmt; cbn [app]; eauto).
+  destruct Ht as (t & ->). apply in_i16_true in Hy.
+  rewrite (to_i64_t_fmt_int 0 y (DOT :: t)) by (try reflexivity; lia). reflexivity.
+Qed.
